@@ -7,8 +7,8 @@
     escapePy_eq_spec escapeC_eq_spec escapeC_eq_escapePy escapeC_len_exact
     escC_identity_iff escape_safe_id escape_append unescape_escape
     escape_no_raw add_safe_once radd_safe_once join_safe_once mod_safe_once
-    mul_spec attrs_or_keeps_order attrs_or_none_removed attrs_or_nodup_partial
-    attrs_or_dup_witness attrs_sub_spec attrs_or_replaces
+    mul_spec attrs_or_keeps_order attrs_or_none_removed attrs_or_nodup
+    attrs_or_dup_repaired attrs_sub_spec attrs_or_replaces
 -/
 import Genshi.Lemmas.Escape
 namespace Genshi.Props.C18
@@ -126,12 +126,7 @@ theorem mod_safe_once (fmt : List Char) (o : Opnd) (os : List Opnd)
     · simp only [escOpnd_py_fun, List.map_map]; rfl
   · unfold mMod; split
     · rfl
-    · cases kvs with
-      | nil => rfl
-      | cons kv kvs =>
-        simp only [List.isEmpty_cons, Bool.false_eq_true, ↓reduceIte, escOpnd_py_fun,
-          List.map_cons, List.map_map]
-        rfl
+    · simp only [escOpnd_py_fun, List.map_map]; rfl
 
 theorem mul_spec (self : List Char) (n : Nat) :
     mMul self n = (List.replicate n self).flatten := by
@@ -160,37 +155,105 @@ theorem orKept_sublist (self : Attrs) (attrs : List (Name × Option (List Char))
   · simp at h
   · simp at h; rw [← h]
 
-theorem orNew_sublist (self : Attrs) (attrs : List (Name × Option (List Char))) :
-    ((orNew self attrs).map (·.1)).Sublist (attrs.map (·.1)) := by
-  apply fst_sublist
-  intro p q h
-  split at h
-  · split at h
-    · simp at h; rw [← h]
-    · simp at h
-  · simp at h
+theorem upsert_names (n : Name) (v : List Char) (acc : Attrs) :
+    (upsert n v acc).map (·.1) = if acc.has n then acc.map (·.1) else acc.map (·.1) ++ [n] := by
+  induction acc with
+  | nil => simp [upsert, Attrs.has]
+  | cons x xs ih =>
+    obtain ⟨k, w⟩ := x
+    by_cases h : k = n
+    · subst h; simp [upsert, Attrs.has]
+    · simp only [upsert, h, ↓reduceIte, List.map_cons, ih, Attrs.has, List.any_cons]
+      have : (k == n) = false := by simpa using h
+      simp only [this, Bool.false_or]
+      by_cases hx : (xs.any fun p => p.fst == n) = true <;> simp [hx]
+
+/-- invariant of the `new` loop: distinct names, none present on the left, none removed,
+    all taken from the right operand -/
+def NewInv (self : Attrs) (remove : List Name) (src : List Name) (acc : Attrs) : Prop :=
+  (acc.map (·.1)).Nodup ∧
+  ∀ x ∈ acc, self.has x.1 = false ∧ remove.contains x.1 = false ∧ x.1 ∈ src
+
+theorem mem_upsert (n : Name) (v : List Char) (acc : Attrs) (x : Name × List Char)
+    (hx : x ∈ upsert n v acc) : x ∈ acc ∨ x = (n, v) := by
+  induction acc with
+  | nil => simp [upsert] at hx; exact Or.inr hx
+  | cons y ys ih =>
+    obtain ⟨k, w⟩ := y
+    by_cases h : k = n
+    · simp only [upsert, h, ↓reduceIte, List.mem_cons] at hx
+      rcases hx with hx | hx
+      · exact Or.inr hx
+      · exact Or.inl (List.mem_cons_of_mem _ hx)
+    · simp only [upsert, h, ↓reduceIte, List.mem_cons] at hx
+      rcases hx with hx | hx
+      · exact Or.inl (by simp [hx])
+      · rcases ih hx with h' | h'
+        · exact Or.inl (List.mem_cons_of_mem _ h')
+        · exact Or.inr h'
+
+theorem newInv_step (self : Attrs) (remove : List Name) (src : List Name) (acc : Attrs)
+    (p : Name × Option (List Char)) (hp : p.1 ∈ src) (h : NewInv self remove src acc) :
+    NewInv self remove src (orNewStep self remove acc p) := by
+  unfold orNewStep
+  cases hv : p.2 with
+  | none => exact h
+  | some v =>
+    simp only
+    split
+    · exact h
+    · rename_i hc
+      simp only [Bool.or_eq_true, not_or, Bool.not_eq_true] at hc
+      refine ⟨?_, ?_⟩
+      · rw [upsert_names]
+        split
+        · exact h.1
+        · rename_i hn
+          rw [List.nodup_append]
+          refine ⟨h.1, by simp, ?_⟩
+          intro a ha b hb hab
+          simp at hb; subst hb; subst hab
+          apply hn
+          simp only [List.mem_map] at ha
+          obtain ⟨y, hy, hye⟩ := ha
+          simp only [Attrs.has, List.any_eq_true]
+          exact ⟨y, hy, by simp [hye]⟩
+      · intro x hx
+        rcases mem_upsert _ _ _ _ hx with hx | hx
+        · exact h.2 x hx
+        · subst hx; exact ⟨hc.1, hc.2, hp⟩
+
+theorem newInv_fold (self : Attrs) (remove : List Name) (src : List Name)
+    (ps : List (Name × Option (List Char))) (hsrc : ∀ p ∈ ps, p.1 ∈ src) :
+    ∀ acc, NewInv self remove src acc → NewInv self remove src (ps.foldl (orNewStep self remove) acc) := by
+  induction ps with
+  | nil => intro acc h; exact h
+  | cons p ps ih =>
+    intro acc h
+    simp only [List.foldl_cons]
+    exact ih (fun q hq => hsrc q (List.mem_cons_of_mem _ hq)) _
+      (newInv_step self remove src acc p (hsrc p (by simp)) h)
+
+theorem orNew_inv (self : Attrs) (attrs : List (Name × Option (List Char))) :
+    NewInv self (orRemove attrs) (attrs.map (·.1)) (orNew self attrs) := by
+  unfold orNew
+  apply newInv_fold
+  · intro p hp; exact List.mem_map_of_mem hp
+  · exact ⟨by simp, by simp⟩
 
 theorem orNew_fresh (self : Attrs) (attrs : List (Name × Option (List Char))) (x : Name × List Char)
-    (hx : x ∈ orNew self attrs) : self.has x.1 = false ∧ (orRemove attrs).contains x.1 = false := by
-  simp only [orNew, List.mem_filterMap] at hx
-  obtain ⟨p, _, h⟩ := hx
-  split at h
-  · split at h
-    · rename_i hc
-      simp at h; subst h
-      simpa using hc
-    · simp at h
-  · simp at h
+    (hx : x ∈ orNew self attrs) : self.has x.1 = false ∧ (orRemove attrs).contains x.1 = false :=
+  ⟨((orNew_inv self attrs).2 x hx).1, ((orNew_inv self attrs).2 x hx).2.1⟩
 
-/-- names kept from the left operand stay in their order; new names follow in
-    the order of the right operand, and none of them was already present -/
+/-- names kept from the left operand stay in their order; new names follow, each
+    once, all taken from the right operand, none of them already present -/
 theorem attrs_or_keeps_order (self : Attrs) (attrs : List (Name × Option (List Char))) :
     (Attrs.or self attrs).map (·.1) = (orKept self attrs).map (·.1) ++ (orNew self attrs).map (·.1) ∧
     ((orKept self attrs).map (·.1)).Sublist (self.map (·.1)) ∧
-    ((orNew self attrs).map (·.1)).Sublist (attrs.map (·.1)) ∧
-    (∀ x ∈ orNew self attrs, self.has x.1 = false) :=
-  ⟨by simp [Attrs.or], orKept_sublist self attrs, orNew_sublist self attrs,
-   fun x hx => (orNew_fresh self attrs x hx).1⟩
+    ((orNew self attrs).map (·.1)).Nodup ∧
+    (∀ x ∈ orNew self attrs, x.1 ∈ attrs.map (·.1) ∧ self.has x.1 = false) :=
+  ⟨by simp [Attrs.or], orKept_sublist self attrs, (orNew_inv self attrs).1,
+   fun x hx => ⟨((orNew_inv self attrs).2 x hx).2.2, (orNew_fresh self attrs x hx).1⟩⟩
 
 /-- a name given the value `None` on the right is absent from the result -/
 theorem attrs_or_none_removed (self : Attrs) (attrs : List (Name × Option (List Char)))
@@ -222,29 +285,28 @@ theorem attrs_or_replaces (self : Attrs) (attrs : List (Name × Option (List Cha
   · simp at hq
   · simp at hq; obtain ⟨rfl, rfl⟩ := hq; exact ⟨p.2, hp, rfl⟩
 
-/-- no duplicate names, provided neither operand has any (`_partial`: the
-    hypothesis on the right operand is needed, see `attrs_or_dup_witness`) -/
-theorem attrs_or_nodup_partial (self : Attrs) (attrs : List (Name × Option (List Char)))
-    (h1 : (self.map (·.1)).Nodup) (h2 : (attrs.map (·.1)).Nodup) :
-    ((Attrs.or self attrs).map (·.1)).Nodup := by
+/-- the result never holds a name twice (the left operand is an `Attrs` without
+    duplicates; nothing is asked of the right operand) -/
+theorem attrs_or_nodup (self : Attrs) (attrs : List (Name × Option (List Char)))
+    (h1 : (self.map (·.1)).Nodup) : ((Attrs.or self attrs).map (·.1)).Nodup := by
   obtain ⟨he, hk, hn, hd⟩ := attrs_or_keeps_order self attrs
   rw [he, List.nodup_append]
-  refine ⟨hk.nodup h1, hn.nodup h2, ?_⟩
+  refine ⟨hk.nodup h1, hn, ?_⟩
   intro a ha b hb hab
   subst hab
   simp only [List.mem_map] at hb
   obtain ⟨x, hx, rfl⟩ := hb
-  have := hd x hx
+  have := (hd x hx).2
   have hm : x.1 ∈ self.map (·.1) := hk.subset ha
   simp only [Attrs.has, List.any_eq_false] at this
   simp only [List.mem_map] at hm
   obtain ⟨p, hp, hpe⟩ := hm
   exact this p hp (by simp [hpe])
 
-/-- the full statement ("never hold duplicates") is false of the code:
-    `Attrs() | [('a','1'),('a','2')]` keeps both pairs -/
-theorem attrs_or_dup_witness :
-    ¬ ((Attrs.or [] [(['a'], some ['1']), (['a'], some ['2'])]).map (·.1)).Nodup := by
+/-- regression witness for the repaired defect (`Attrs() | [('a','1'),('a','2')]` used to
+    keep both pairs): one pair, last value -/
+theorem attrs_or_dup_repaired :
+    Attrs.or [] [(['a'], some ['1']), (['a'], some ['2'])] = [(['a'], ['2'])] := by
   decide
 
 theorem attrs_sub_spec (self : Attrs) (names : List Name) (n : Name) (v : List Char) :
